@@ -13,7 +13,7 @@ import (
 // dropped are gone, later ones appear twice.
 func checkInPlaceFilterStoredBack(p *Program, r *Result, rule string) {
 	n := 0
-	for _, fn := range methodsOf(p, pkgMcap, "indexedMessageIterator") {
+	for _, fn := range iteratorAndQueueMethods(p) {
 		if fn.Blocks == nil {
 			continue
 		}
